@@ -206,7 +206,10 @@ class FileStore(BaseEngine):
             elif r < 0.6:
                 tr.extend([['eot', pick(rng, SMALL_DELTAS)], ['eot', pick(rng, SMALL_DELTAS)]])
             tracks.append(tr)
-        plan = {'prop': prop, 'cfg': cfg, 'type': ftype, 'tpb': pick(rng, (1, 96, 480, 960, 32767)),
+        plan = {'prop': prop, 'cfg': cfg, 'type': ftype,
+                'tpb': pick(rng, (1, 96, 480, 960, 32767)) if rng.random() < 0.92 else
+                pick(rng, (32768, 40000, 65535, 66016)),
+                'charset': pick(rng, ('latin1', 'latin1', 'latin1', 'utf-8', 'utf-16', 'cp1252')),
                 'tracks': tracks, 'via': pick(rng, ('file', 'filename')),
                 'saves': pick(rng, (1, 1, 1, 2, 3)), 'merge_edit': rng.random() < 0.15,
                 'prelude': [pick(rng, ('utf-8', 'utf-16', 'cp1252', 'latin1')) for _ in range(rng.randint(1, 2))]
@@ -218,6 +221,8 @@ class FileStore(BaseEngine):
             # another file is saved and loaded in the same process between our save and our load
             plan['bystander'] = [[gen_event(rng, True, False) for _ in range(rng.randint(1, 6))]
                                  for _ in range(rng.randint(1, 2))]
+        if cfg != 'roundtrip' and plan['tpb'] > 32767:
+            plan['tpb'] = 480
         if cfg == 'unstorable':
             kind = weighted(rng, (('rt', 4), ('negative', 2), ('float', 2), ('type0', 2), ('storable_common', 3)))
             plan['bad'] = kind
@@ -343,8 +348,26 @@ class FileStore(BaseEngine):
             out['final_plan'] = final
         return out
 
+    def _charset(self, plan):
+        """The charset the judged file uses: the planned one if every text of the plan survives it, else latin1."""
+        cs = plan.get('charset', 'latin1')
+        if plan.get('cfg') != 'roundtrip' or cs == 'latin1':
+            return 'latin1'
+        for tr in plan['tracks']:
+            for e in tr:
+                if e[0] == 'meta' and isinstance(e[2], dict):
+                    for v in e[2].values():
+                        if isinstance(v, str):
+                            try:
+                                if v.encode(cs).decode(cs) != v:
+                                    return 'latin1'
+                            except UnicodeError:
+                                return 'latin1'
+        return cs
+
     def _mk(self, plan):
-        mf = MidiFile(type=plan['type'] if plan['type'] in (0, 1, 2) else 1, ticks_per_beat=plan['tpb'])
+        mf = MidiFile(type=plan['type'] if plan['type'] in (0, 1, 2) else 1, ticks_per_beat=plan['tpb'],
+                      charset=self._charset(plan))
         for tr in plan['tracks']:
             mf.tracks.append(MidiTrack(build(e) for e in tr))
         return mf
@@ -361,15 +384,15 @@ class FileStore(BaseEngine):
             mf.save(file=h)
         return bytes(disk.files[name])
 
-    def _load(self, image, via, disk, name='g.mid'):
+    def _load(self, image, via, disk, name='g.mid', charset='latin1'):
         disk.files[name] = bytearray(image)
         if via == 'filename':
             mfmod.__dict__['open'] = disk.open
             try:
-                return MidiFile(filename=name)
+                return MidiFile(filename=name, charset=charset)
             finally:
                 mfmod.__dict__.pop('open', None)
-        return MidiFile(file=disk.handle(name, 'rb'))
+        return MidiFile(file=disk.handle(name, 'rb'), charset=charset)
 
     def _probe_image(self, image, stats):
         """Reach probes measured on the stored bytes with the independent walker."""
@@ -462,6 +485,9 @@ class FileStore(BaseEngine):
             if plan.get('saves', 1) > 1:
                 stats['probe:same_object_saved_again'] += 1
         except Exception as e:
+            if not 0 < plan['tpb'] <= 32767:
+                stats['tpb_out_of_range_refused'] += 1      # not a storable header value: refusing it is fine
+                return
             raise Violation(f'roundtrip:save-raised:{type(e).__name__}',
                             f'saving storable content raised {type(e).__name__}: {e}')
         if plan.get('bystander'):
@@ -481,7 +507,7 @@ class FileStore(BaseEngine):
                                                                f'expected {omodel!r}')
             stats['fault:other_file_in_between'] += 1
         try:
-            back = self._load(image, plan['via'], disk)
+            back = self._load(image, plan['via'], disk, charset=self._charset(plan))
         except Exception as e:
             raise Violation(f'roundtrip:load-raised:{type(e).__name__}',
                             f'loading the image just saved raised {type(e).__name__}: {e} '
@@ -689,8 +715,10 @@ class FileStore(BaseEngine):
             yield c
         if plan.get('saves', 1) > 1:
             yield replace_at(plan, ('saves',), plan['saves'] - 1)
-        if plan['tpb'] != 480:
+        if plan['tpb'] != 480 and plan['tpb'] <= 32767:
             yield replace_at(plan, ('tpb',), 480)
+        if plan.get('charset', 'latin1') != 'latin1':
+            yield replace_at(plan, ('charset',), 'latin1')
         for i, tr in enumerate(plan['tracks']):
             for j, e in enumerate(tr):
                 if e[0] in ('msg', 'meta', 'sysex', 'umeta') and e[-1] != 0:
